@@ -199,6 +199,45 @@ run_case(const Case &c)
       }
       std::printf("ZPURE history %d\n", ok ? 1 : 0);
     }
+    // a copy / an assigned / a moved-to generator must not depend on what happens to its source afterwards:
+    // the source is overwritten with another distribution of the same bin count (its storage is reused in place),
+    // then destroyed, and the heap is churned
+    {
+      bool ok = true;
+      auto churn = [&] {
+        std::vector<std::vector<double>> junk;
+        const size_t len = (n >= 1 && n <= (1ULL << 20)) ? static_cast<size_t>(n) : 1024;
+        for (int i = 0; i < 6; ++i) junk.emplace_back(len, 0.25 + 0.1 * i);
+        return junk.size();
+      };
+      {
+        auto *src = new Gen{mn, mx, alpha};   // constructed from the parameters, not copied
+        Gen cp{*src};
+        Gen as{};
+        as = *src;
+        try {
+          const Gen other{mn, mx, alpha + 0.5};
+          *src = other;
+        } catch (const std::exception &) {
+        }
+        ok = ok && seq(cp, c.pseed) == base && seq(as, c.pseed) == base;
+        delete src;
+        (void)churn();
+        ok = ok && seq(cp, c.pseed) == base && seq(as, c.pseed) == base;
+      }
+      {
+        auto *src = new Gen{mn, mx, alpha};
+        Gen mv{std::move(*src)};
+        Gen ma{};
+        auto *src2 = new Gen{mn, mx, alpha};
+        ma = std::move(*src2);
+        delete src;
+        delete src2;
+        (void)churn();
+        ok = ok && seq(mv, c.pseed) == base && seq(ma, c.pseed) == base;
+      }
+      std::printf("ZPURE source_lifetime %d\n", ok ? 1 : 0);
+    }
     bool in_range = true;
     for (auto v : base) in_range = in_range && !(v < mn) && !(mx < v);
     std::printf("ZPURE in_range %d\n", in_range ? 1 : 0);
